@@ -29,6 +29,7 @@ func zzValues() []any {
 		map[string]int{"k": 1}, map[int]string{1: "a"}, map[zzMyString]int{"k": 1}, map[any]int{"k": 1},
 		zzStruct{Name: "n"}, &zzStruct{Name: "p", Items: []int{1}}, nilPtr, zzStringer{"<s>"}, zzMyString("ms"),
 		func() int { return 1 }, func(a int) int { return a }, func(s fmt.Stringer) string { return "x" }, func(a ...int) int { return len(a) },
+		func() (int, *Error) { return 5, nil }, func() (int, error) { var e *Error; return 5, e }, func() (*Value, *Error) { return nil, nil },
 	}
 }
 
